@@ -1,306 +1,11 @@
-// C01: every response reaches the request that caused it, and only that one.
-// Controlled-scheduler exploration of one real Conn (instrumented gocql) against a
-// scripted node: schedules x reply order/fates x timeouts/cancellation/write faults.
 package main
 
 import (
-	"fmt"
-	"net"
-	"sort"
-	"strings"
 	"time"
 
-	"github.com/gocql/gocql"
-
 	"verif/engine/mcreport"
-	"verif/engine/refcql/frame"
-	"verif/engine/vnode"
-	vs "verif/engine/vsched"
-	"verif/engine/vsched/vatomic"
-	context "verif/engine/vsched/vcontext" // the harness must use the scheduler-owned context: a natively closed Done channel is invisible to the scheduler
-	"verif/engine/vsched/vnet"
 )
 
-type cfgT struct {
-	name       string
-	proto      int
-	callers    int
-	perCaller  int
-	freeIDs    int  // >0: leave only this many stream ids free (v2 only)
-	canceller  bool // a thread cancels caller 0's context at an arbitrary point
-	writeFault bool // client-side write faults on request frames
-	coalesce   bool
-	fates      []string // fates the node may choose per request (first = default)
-}
-
-type labelKey struct{}
-
-type streamEv struct {
-	label string
-	kind  string
-	// state of the world at the event
-	frameOnWire bool
-	replied     bool
-	at          time.Duration
-}
-
-type world struct {
-	cfg      *cfgT
-	node     *vnode.Node
-	client   *vnet.Conn
-	wlog     []vnet.WriteRec
-	events   []streamEv
-	fateOf   map[string]string
-	canceled map[int]bool
-}
-
-// observer implements gocql.StreamObserver / StreamObserverContext.
-type observer struct{ w *world }
-type obsCtx struct {
-	w     *world
-	label string
-}
-
-func (o observer) StreamContext(ctx context.Context) gocql.StreamObserverContext {
-	l, _ := ctx.Value(labelKey{}).(string)
-	if l == "" {
-		return nil
-	}
-	return &obsCtx{o.w, l}
-}
-
-func (o *obsCtx) rec(kind string) {
-	w := o.w
-	ev := streamEv{label: o.label, kind: kind, at: vs.Clock()}
-	for _, r := range w.wlog {
-		if strings.Contains(string(r.Data), "'"+o.label+"'") {
-			ev.frameOnWire = true
-		}
-	}
-	for _, r := range w.node.Log {
-		if r.Req == nil {
-			continue
-		}
-		if q, ok := r.Req.Msg.(*frame.Query); ok && strings.Contains(q.Statement, "'"+o.label+"'") && r.Replied {
-			ev.replied = true
-		}
-	}
-	w.events = append(w.events, ev)
-}
-func (o *obsCtx) StreamStarted(gocql.ObservedStream)   { o.rec("started") }
-func (o *obsCtx) StreamFinished(gocql.ObservedStream)  { o.rec("finished") }
-func (o *obsCtx) StreamAbandoned(gocql.ObservedStream) { o.rec("abandoned") }
-
-func labelOf(stmt string) string {
-	i := strings.Index(stmt, "'")
-	j := strings.LastIndex(stmt, "'")
-	if i < 0 || j <= i {
-		return ""
-	}
-	return stmt[i+1 : j]
-}
-
-func (w *world) handler(n *vnode.Node, sc *vnode.ServerConn, rec *vnode.ReqRec) vnode.Reply {
-	q, ok := rec.Req.Msg.(*frame.Query)
-	if !ok {
-		return vnode.Reply{Msg: frame.ResultVoid{}}
-	}
-	label := labelOf(q.Statement)
-	// wire-level monitor: an id must not be reused while an earlier request with that id is still owed its response
-	lo, hi := frame.StreamRange(rec.Req.Header.Version)
-	_ = lo
-	if rec.Stream < 1 || rec.Stream > hi {
-		vs.Failf("c01:stream-id-out-of-range", "request %q sent with stream id %d (valid 1..%d)", label, rec.Stream, hi)
-	}
-	for _, old := range n.Log[:rec.Seq] {
-		if old.Conn == rec.Conn && old.Stream == rec.Stream && !old.Replied && old.Req != nil {
-			if oq, ok := old.Req.Msg.(*frame.Query); ok {
-				vs.Failf("c01:stream-id-reused-before-response", "stream id %d reused by %q at %v while request %q (received %v, fate %s) has not been answered on this open connection",
-					rec.Stream, label, vs.Clock(), labelOf(oq.Statement), old.Time, old.Fate)
-			}
-		}
-	}
-	fate := w.cfg.fates[vs.Choose(len(w.cfg.fates), vs.CostF)]
-	w.fateOf[label] = fate
-	switch fate {
-	case "late":
-		return vnode.Reply{Msg: vnode.TextRows("t", label), Delay: 150 * time.Millisecond}
-	case "never":
-		return vnode.Reply{Never: true}
-	case "error":
-		return vnode.Reply{Msg: &frame.Error{Code: 0x2200, Message: "invalid:" + label}}
-	case "drop":
-		return vnode.Reply{Drop: true}
-	}
-	return vnode.Reply{Msg: vnode.TextRows("t", label)}
-}
-
-func (c *cfgT) body() {
-	gocql.VerifResetGlobals()
-	vatomic.Yield = false // the stream-id allocator's atomic steps are explored by C08
-	w := &world{cfg: c, fateOf: map[string]string{}, canceled: map[int]bool{}}
-	w.node = vnode.New("n1", net.IPv4(10, 0, 0, 1), 9042, vnode.Basic(w.handler))
-	client, server := vnet.Pipe("c0", &net.TCPAddr{IP: net.IPv4(10, 0, 0, 9), Port: 40000}, w.node.Addr)
-	client.Log = &w.wlog
-	w.client = client
-	w.node.AcceptSync(server)
-
-	cluster := gocql.NewCluster("10.0.0.1")
-	cluster.ProtoVersion = c.proto
-	cluster.Timeout = 100 * time.Millisecond
-	cluster.ConnectTimeout = 100 * time.Millisecond
-	cluster.WriteCoalesceWaitTime = 0
-	if c.coalesce {
-		cluster.WriteCoalesceWaitTime = 200 * time.Microsecond
-	}
-	cluster.StreamObserver = observer{w}
-	vs.Quiet(true)
-	live, err := gocql.VerifDial(client, *cluster, !c.coalesce)
-	if err != nil {
-		vs.Quiet(false)
-		vs.Failf("c01:handshake-failed", "handshake failed in the quiet prefix: %v", err)
-		return
-	}
-	if c.freeIDs > 0 {
-		n := live.NumStreams() - 1 - c.freeIDs
-		if got := len(live.ReserveStreams(n)); got != n {
-			vs.Failf("c01:setup", "reserved %d of %d ids", got, n)
-		}
-	}
-	vs.Quiet(false)
-	if c.writeFault {
-		hs := len(w.wlog)
-		client.Faults = func(_ *vnet.Conn, idx, n int) []int {
-			if idx < hs {
-				return nil
-			}
-			return []int{0, n / 2}
-		}
-	}
-
-	type result struct {
-		label string
-		rows  []string
-		err   error
-	}
-	results := make(chan result, c.callers*c.perCaller)
-	ctxs := make([]context.Context, c.callers)
-	cancels := make([]context.CancelFunc, c.callers)
-	for i := range ctxs {
-		ctxs[i], cancels[i] = context.WithCancel(context.Background())
-	}
-	for i := 0; i < c.callers; i++ {
-		i := i
-		vs.GoNamed(fmt.Sprintf("caller%d", i), func() {
-			for k := 0; k < c.perCaller; k++ {
-				label := fmt.Sprintf("c%dq%d", i, k)
-				ctx := context.WithValue(ctxs[i], labelKey{}, label)
-				it := live.Query(ctx, "QUERYX '"+label+"'").Iter()
-				var rows []string
-				var s string
-				for it.Scan(&s) {
-					rows = append(rows, s)
-				}
-				err := it.Close()
-				vs.Send(results, result{label, rows, err})
-			}
-		})
-	}
-	if c.canceller {
-		vs.GoNamed("canceller", func() {
-			w.canceled[0] = true
-			cancels[0]()
-		})
-	}
-	var got []result
-	for i := 0; i < c.callers*c.perCaller; i++ {
-		got = append(got, vs.Recv[result](results))
-	}
-	vs.WaitQuiescent()
-
-	// (1) what each caller got
-	var sig []string
-	for _, r := range got {
-		cls := gocql.VerifErrClass(r.err)
-		fate := w.fateOf[r.label]
-		switch {
-		case r.err == nil:
-			if len(r.rows) != 1 || r.rows[0] != r.label {
-				vs.Failf("c01:misdelivered-rows", "caller of %q received rows %v (fate %q)", r.label, r.rows, fate)
-			}
-			if fate != "" && fate != "reply" && fate != "late" {
-				vs.Failf("c01:rows-without-reply", "caller of %q received rows although the node's fate for it was %q", r.label, fate)
-			}
-		case cls == "server-error":
-			if !strings.Contains(r.err.Error(), "invalid:"+r.label) {
-				vs.Failf("c01:misdelivered-error", "caller of %q received a server error that is not its own: %v (fate %q)", r.label, r.err, fate)
-			}
-		case cls == "timeout", cls == "conn-closed", cls == "no-streams" && c.freeIDs > 0:
-		case cls == "ctx-canceled":
-			if !strings.HasPrefix(r.label, "c0") || !c.canceller {
-				vs.Failf("c01:spurious-cancel", "caller of %q got context.Canceled but its context was never cancelled", r.label)
-			}
-		case strings.HasPrefix(cls, "other:"):
-			// write faults surface as the injected net error; EOF when the node dropped the connection
-			msg := r.err.Error()
-			okMsg := strings.Contains(msg, "vnet:") || strings.Contains(msg, "EOF") || strings.Contains(msg, "closed")
-			if !okMsg {
-				vs.Failf("c01:unexpected-error", "caller of %q got %v (fate %q)", r.label, r.err, fate)
-			}
-		default:
-			vs.Failf("c01:unexpected-error", "caller of %q got %v (fate %q)", r.label, r.err, fate)
-		}
-		sig = append(sig, fmt.Sprintf("%s:%s/%s", r.label, fate, cls))
-	}
-	// (2) release-after-response monitor on the stream observer callbacks
-	ended := map[string]string{}
-	for _, e := range w.events {
-		switch e.kind {
-		case "finished":
-			if e.frameOnWire && !e.replied {
-				vs.Failf("c01:stream-released-before-response", "StreamFinished for %q at %v although its frame is on the wire and the node has not answered it (fate %q)", e.label, e.at, w.fateOf[e.label])
-			}
-			fallthrough
-		case "abandoned":
-			if prev, dup := ended[e.label]; dup {
-				vs.Failf("c01:stream-ended-twice", "stream of %q ended twice: %s then %s", e.label, prev, e.kind)
-			}
-			ended[e.label] = e.kind
-		}
-	}
-	if len(w.node.FrameErrors) > 0 && !c.writeFault {
-		vs.Failf("c01:node-frame-error", "node could not parse the client's bytes: %v", w.node.FrameErrors)
-	}
-	sort.Strings(sig)
-	vs.Observe("%s", strings.Join(sig, " "))
-}
-
-func (c *cfgT) build() *vs.Scenario {
-	return &vs.Scenario{Name: c.name, Cfg: vs.Config{MaxSteps: 20000, Horizon: 700 * time.Millisecond, DelayBounded: true}, Body: c.body}
-}
-
 func main() {
-	all := []string{"reply", "late", "never", "error", "drop"}
-	cfgs := []*cfgT{
-		{name: "v2-2x2-free2-fates", proto: 2, callers: 2, perCaller: 2, freeIDs: 2, fates: all},
-		{name: "v2-2x2-free2-cancel", proto: 2, callers: 2, perCaller: 2, freeIDs: 2, canceller: true, fates: []string{"reply", "late", "never"}},
-		{name: "v2-3x1-free2-writefault", proto: 2, callers: 3, perCaller: 1, freeIDs: 2, writeFault: true, fates: []string{"reply", "late"}},
-		{name: "v4-2x2-fates", proto: 4, callers: 2, perCaller: 2, fates: all},
-		{name: "v2-2x2-free2-coalesce", proto: 2, callers: 2, perCaller: 2, freeIDs: 2, coalesce: true, fates: []string{"reply", "late", "never"}},
-		{name: "v2-3x2-free1-late", proto: 2, callers: 3, perCaller: 2, freeIDs: 1, fates: []string{"reply", "late", "never"}},
-	}
-	var defs []mcreport.Def
-	for _, c := range cfgs {
-		c := c
-		q := vs.Bounds{P: 2, D: 2, F: 2, T: 2}
-		if c.name == "v2-2x2-free2-fates" || c.name == "v2-2x2-free2-cancel" {
-			q = vs.Bounds{P: 3, D: 3, F: 3, T: 3}
-		}
-		defs = append(defs, mcreport.Def{Name: c.name, Build: c.build, Quick: q, Thorough: vs.Bounds{P: 4, D: 4, F: 4, T: 4}})
-	}
-	mcreport.Main("C01", "model_checking",
-		"delay-bounded exhaustive exploration: every execution of the listed one-connection scenarios on the instrumented real Conn that departs at most T times from the deterministic default (P: another thread or select case runs, D: a timer fires while threads are runnable, F: a non-default environment answer - per-request fate reply/late/never/error/drop, client write fault at byte 0 or n/2); happens-before state caching; distinct = distinct per-caller outcome signatures",
-		[]string{"one connection, 2-3 callers with 1-2 sequential queries each; request timeout 100ms, late replies after 150ms, horizon 700ms (heartbeat excluded, see C06)",
-			"map iteration order is fixed (sorted) by the instrumenter; plain memory accesses are not scheduling points (separate -race pass)"},
-		defs, 60*time.Second, 12*time.Minute, nil)
+	mcreport.Main("C01", "model_checking", connRule, connAssume, connDefs("C01"), 75*time.Second, 12*time.Minute, nil)
 }
